@@ -4,6 +4,7 @@ from __future__ import annotations
 
 import itertools
 import json
+import re
 import random
 from collections import Counter
 
@@ -21,7 +22,7 @@ def plan(tier, seed):
     k = 40 if tier == "quick" else 800
     shards += [{"kind": "variants", "seed": seed, "shard": i, "n": 250} for i in range(k)]
     shards += [{"kind": "corrupt", "seed": seed, "shard": i, "n": 400} for i in range(k)]
-    shards += [{"kind": "cli", "seed": seed, "shard": i, "n": 15} for i in range(8 if tier == "quick" else 100)]
+    shards += [{"kind": "cli", "seed": seed, "shard": i, "n": 25} for i in range(16 if tier == "quick" else 200)]
     return shards
 
 
@@ -217,6 +218,29 @@ def run_corrupt(desc):
     return {"evaluations": len(reqs), "nontrivial_hashes": hashes, "counters": cnt, "violations": viols[:30], "samples": samples}
 
 
+def run_multi(parts):
+    from ..clidrv import Sandbox
+    with Sandbox() as sb:
+        names = []
+        for i, p_ in enumerate(parts):
+            sb.write(f"p{i}.cgt", p_.encode())
+            names.append(f"p{i}.cgt")
+        return sb.run(["parse"] + names)
+
+
+def judge_multi(r, exp):
+    """exp: list of dicts (date/ticker/kind) or triples."""
+    want = [(e["date"], e["ticker"], e["kind"]) if isinstance(e, dict) else tuple(e) for e in exp]
+    if r["exit"] != 0:
+        return [{"clause": "valid-files-rejected", "signature": "multi-file:valid-files-rejected",
+                 "detail": "cli (several input files): " + r["stderr"][:200]}]
+    got = [(g["date"], g["ticker"], g["action"]) for g in json.loads(r["stdout"])]
+    if got != want:
+        return [{"clause": "cli-parse-differs", "signature": "multi-file:cli-parse-differs",
+                 "detail": f"several input files: {len(got)} transactions read, {len(want)} written"}]
+    return []
+
+
 def run_cli(desc):
     """`cgt-tool parse` on variants: JSON output equals the expected list; corrupt file: exit != 0, no stdout."""
     from ..clidrv import Sandbox
@@ -249,6 +273,27 @@ def run_cli(desc):
                                            for g, e in zip(got, exp)):
                 viols.append({"clause": "cli-parse-differs", "signature": "cli-parse-differs",
                               "detail": f"{len(got)} vs {len(exp)} transactions", "case": case})
+        # the same text cut at line boundaries into several input files; a non-final file may lack its final newline
+        cuts = [m.end() for m in re.finditer(r"\r\n|\r|\n", text)]
+        if len(cuts) >= 2:
+            ks = sorted(rng.sample(cuts[:-1] if cuts[-1] == len(text) and len(cuts) > 2 else cuts, rng.choice([1, 2]) if len(cuts) > 3 else 1))
+            parts, prev = [], 0
+            for k_ in ks + [len(text)]:
+                parts.append(text[prev:k_])
+                prev = k_
+            stripped = 0
+            for i_ in range(len(parts) - 1):
+                if rng.random() < 0.6:
+                    t_ = re.sub(r"(\r\n|\r|\n)$", "", parts[i_])
+                    stripped += t_ != parts[i_]
+                    parts[i_] = t_
+            rm = run_multi(parts)
+            cnt["cli_multi_file_runs"] += 1
+            cnt["cli_multi_file_nonfinal_without_final_newline"] += 1 if stripped else 0
+            vm = judge_multi(rm, exp)
+            for x in vm:
+                x["case"] = {"op": "parse_multi", "parts": parts, "expected": [[e["date"], e["ticker"], e["kind"]] for e in exp]}
+            viols += vm
         if r2 is not None:
             cnt["cli_corrupt_runs"] += 1
             if r2["exit"] == 0 or r2["stdout"]:
@@ -263,6 +308,9 @@ def run_shard(desc):
 
 
 def replay(case):
+    if case.get("op") == "parse_multi":
+        r = run_multi(case["parts"])
+        return judge_multi(r, case["expected"]), {"exit": r["exit"], "stderr": r["stderr"][:300], "stdout": r["stdout"][:600]}
     o = probe().one({"op": "parse", "text": case["text"]})
     vs = []
     if "corrupted_line" in case:
@@ -283,11 +331,12 @@ def finalize(total, tier, seed):
         "ticker case {upper, lower, mixed} x spacing {single, wide}"]
 
 
-THRESHOLDS = {"enumerated_single_line_files": 3384, "variant_files": 2500, "corruptions": 4000,
+THRESHOLDS = {"cli_multi_file_nonfinal_without_final_newline": 150, "enumerated_single_line_files": 3384, "variant_files": 2500, "corruptions": 4000,
               "placement_CR": 300, "placement_CRLF": 300, "placement_no_final_newline": 500,
               "placement_trailing_comment_after_number": 300, "placement_trailing_comment_after_word": 300,
               "corruption_delete_required": 200, "corruption_currency_garbage": 100, "corruption_date_calendar": 200}
 RULE = ("(a) complete enumeration of single-transaction files over the lexical variations the statement names, (b) "
         "seeded multi-line files of all seven kinds rendered with random combinations of those variations by an "
         "independent renderer that knows the expected list, (c) one-token corruptions invalid under any reading of the "
-        "documented format; distinct by text hash")
+        "documented format, (d) through the real `cgt-tool parse`: the same files whole and cut at line boundaries into "
+        "several input files whose non-final parts may lack the final newline; distinct by text hash")
